@@ -65,6 +65,14 @@ Definition step (s : pst) (o : op) : pst :=
            end
   end.
 
+(* the variant in which exit() returns before closing when the bar spans no steps ([empty] = the bar was created with
+   max_value = 0): used for the refutation only *)
+Definition step_early (empty : bool) (s : pst) (o : op) : pst :=
+  match o with
+  | Exit => if empty then s else step s Exit
+  | _ => step s o
+  end.
+
 Definition armed_ids (s : pst) : list nat :=
   map fst (filter (fun p => match t_stat (snd p) with Armed => true | _ => false end)
                   (combine (seq 0 (length (timers s))) (timers s))).
